@@ -70,7 +70,7 @@ Lemma handle_client_gate : forall cfg o c b e,
   (is_ptr e = true -> ptr_allowed o (c_id c) = true).
 Proof.
   intros cfg o c b e. unfold handle_client.
-  destruct (parse_for (c_state c) (k_ext (c_clip c)) (c_in c)) as [m i|er]; [|intros []].
+  destruct (parse_for (c_state c) (k_ext (c_clip c)) (fix_extlimit cfg) (c_in c)) as [m i|er]; [|intros []].
   unfold apply_msg.
   replace (c_state (set_in c i)) with (c_state c) by (destruct c; reflexivity).
   destruct (c_state c) eqn:S; try (rewrite apply_handshake_noev; intros []).
